@@ -147,6 +147,8 @@ def _once(required, depth, channel, g, selector, sections, selector2, sections2,
                     a[n] = dict(sec)
     given = {n: bool(obj.get(n)) for n in L1}  # a section counts as given if it holds anything (also level-2 keys)
     exp = _expected(required, depth, g, selector, sections, given, selector2, sections2, file_kind)
+    if channel.endswith("-nodefaults"):
+        return _once_nodefaults(parser, channel, obj, exp, required, depth, file_kind)
     try:
         with warnings.catch_warnings():
             warnings.simplefilter("ignore")
@@ -168,6 +170,45 @@ def _once(required, depth, channel, g, selector, sections, selector2, sections2,
                     msg=msg if got == "error" else "")
     if got != "error" and not _deq(got, exp):
         return Fail("subcommand:wrong-result", required=required, depth=depth, channel=channel, file_kind=file_kind, expected=_shape(exp), got=_shape(got))
+    return True
+
+
+def _once_nodefaults(parser, channel, obj, exp, required, depth, file_kind):
+    """defaults=False: nothing is filled in, so only what the statement says about selection is demanded of an accepted
+    parse: the selected subcommand is the model's, *only its* section is present, and the given leaves of that section survive."""
+    from jsonargparse import ArgumentError
+
+    try:
+        with warnings.catch_warnings():
+            warnings.simplefilter("ignore")
+            if channel == "object-nodefaults":
+                cfg = parser.parse_object(obj, defaults=False)
+            else:
+                cfg = parser.parse_string(json.dumps(obj), defaults=False)
+        got = _plain(cfg)
+    except ArgumentError:
+        S.note("error")
+        if exp != "error" and exp.get("subcommand") and "subcommand" in obj:
+            return Fail("subcommand:wrong-accept-reject", required=required, depth=depth, channel=channel, file_kind=file_kind, expected=_shape(exp), got="error")
+        return True  # without defaults a parse may lack required values; not the subject here
+    if exp == "error":
+        # the model's errors are an unknown name or nothing selectable although required
+        S.note("error")
+        if obj.get("subcommand") == "nope":
+            return Fail("subcommand:wrong-accept-reject", required=required, depth=depth, channel=channel, file_kind=file_kind, expected="error", got=_shape(got))
+        return True
+    S.note("chosen" if exp.get("subcommand") else "none-chosen")
+    choice = exp.get("subcommand")
+    if choice is None:
+        return True
+    if got.get("subcommand") != choice:
+        return Fail("subcommand:wrong-result", required=required, depth=depth, channel=channel, file_kind=file_kind, expected=_shape(exp), got=_shape(got), what="selected subcommand")
+    others = [n for n in L1 if n != choice and n in got]
+    if others:
+        return Fail("subcommand:section-of-an-unselected-subcommand-survives", required=required, depth=depth, channel=channel, others=others, got=_shape(got))
+    for k, v in (obj.get(choice) or {}).items():
+        if not isinstance(v, dict) and not (isinstance(got.get(choice), dict) and _deq(got[choice].get(k), v)):
+            return Fail("subcommand:wrong-result", required=required, depth=depth, channel=channel, file_kind=file_kind, expected=_shape(exp), got=_shape(got), what="given leaf of the selected section")
     return True
 
 
@@ -355,12 +396,13 @@ def main(rep, tier):
     rep.stubs = [FORMAT_STUBS_NOTE]
     rep.rule = ("one path per (selector presence/name, section presence per subcommand and level, global given) x branch of the real code on the symbolic leaf ints; "
                 "non-trivial = the parse outcome was compared with the selection model")
-    rep.bounds = dict(depth=[1, 2], subcommands_per_level=[3, 2], required=[True, False], channels=["object", "cfg_text", "parse_string", "argv+env"], default_config_file=DEFAULT_FILE_KINDS)
+    rep.bounds = dict(depth=[1, 2], subcommands_per_level=[3, 2], required=[True, False], channels=["object", "cfg_text", "parse_string", "argv+env", "object-nodefaults", "parse_string-nodefaults"], default_config_file=DEFAULT_FILE_KINDS)
     rep.assumptions = [
         "selection model: named on the command line, else named in config/environment, else the first subcommand in declaration order for which settings were given, "
         "else an error if required, else no subcommand (dest None)",
         "an empty section is not 'settings given'; sections are either absent or hold one leaf",
         "settings in a default config file count as given settings; a default config file that sets only global options does not choose a subcommand",
+        "defaults=False (channels *-nodefaults): only selection, absence of every other section and survival of the given leaves are demanded of an accepted parse",
         "depth 3 and default config files inside sub-parsers are outside",
     ]
     jobs = []
@@ -370,6 +412,8 @@ def main(rep, tier):
             jobs.append(dict(module="c17", func="selection", kwargs=dict(required=required, depth=2, channel="object", shard=sh, nshards=6), timeout=600))
         jobs.append(dict(module="c17", func="selection", kwargs=dict(required=required, depth=1, channel="cfg_text"), timeout=600))
         jobs.append(dict(module="c17", func="selection", kwargs=dict(required=required, depth=1, channel="parse_string"), timeout=600))
+        jobs.append(dict(module="c17", func="selection", kwargs=dict(required=required, depth=1, channel="object-nodefaults"), timeout=600))
+        jobs.append(dict(module="c17", func="selection", kwargs=dict(required=required, depth=1, channel="parse_string-nodefaults"), timeout=600))
         for fk in DEFAULT_FILE_KINDS[1:]:
             jobs.append(dict(module="c17", func="selection", kwargs=dict(required=required, depth=1, channel="object", file_kind=fk), timeout=600))
         jobs.append(dict(module="c17", func="argv_env", kwargs=dict(required=required), timeout=600))
